@@ -10,6 +10,8 @@ from props import fbd
 ID = "C18"
 LEAN_MODULES = ["QProps.C18", "QProps.C15f"]
 THEOREMS = [
+    "AFB.zero_force_coefficient",
+    "AFB.coefOfColumn_eq_raw",
     # on the driver machine (QModel/FBDriver.lean): which configuration's committee every step's delta comes from
     "FBD.afb_delta_current",
     "FBD.afb_delta_current_after_edit",
@@ -60,8 +62,8 @@ ASSUMPTIONS = [
     "math.atanh(0.5) is modelled as 0.5*log(3) (1 ulp apart in double)",
     ("theorems are over the reals: rounding at the anchors and float saturation (1 - tanh(x) == 0.0 for x > ~19, "
      "exp underflow) are not covered; the oracle allows 1e-12 of the delta scale"),
-    ("a coordinate on which all committee members predict exactly zero force gives 0/0 = nan in Python and in the "
-     "Float model (0 over the reals); the property quantifies over finite variances, so it is excluded"),
+    ("a coordinate on which all committee members predict exactly zero force has variation coefficient 0 (no spread; the "
+     "code divides only where the mean magnitude is non-zero), hence delta = max_delta"),
     "ForceBias.step (the force-bias move itself) is C13's model; here only 'update_delta runs first' is checked, on the real code",
 ]
 
@@ -499,7 +501,11 @@ class Committee(common.Suite):
                 zero_cols = {j for j in range(n3) if all(row[j] == 0.0 for row in fc)}
             for j, (v, d) in enumerate(zip(s["vc"], s["delta"])):
                 if j in zero_cols:
-                    continue  # 0/0: not a finite variance, outside the property
+                    # every member gives exactly zero force here: no spread at all — variance 0, delta = max_delta (not 0/0)
+                    if not (v == 0.0 and fin(d) and abs(d - c["max"]) <= tol):
+                        out.append((f"committee:{sch}:{fn}:zero-force-coordinate",
+                                    f"entry {j}: all members give zero force, variation_coef {v!r}, delta {d!r} (max_delta {c['max']!r})"))
+                    continue
                 if math.isnan(v) or v < 0:
                     out.append((f"committee:{sch}:coef-nan-or-negative", f"entry {j}: variation_coef {v!r}"))
                 elif math.isinf(v):
